@@ -24,6 +24,7 @@ from vx.units._visit import opaque
 from vx.units.rtree import struct_fields
 
 PROPS = ['C07']
+RLIMIT = 50
 RM = 'dukebox/src/remap.rs'
 T = 'duke/src/tree/'
 
